@@ -66,6 +66,8 @@ def run(ctx, chk, tier):
     chk.floor("R03", 72, "6 metrics x 4 configurations x 3 methods")
     sentinel_dtype(ctx, chk)
     float_extremes(ctx, chk, tier)
+    from . import c10
+    c10.purity(ctx, chk, only=("Scores.threshold_at_",), strict=False)
 
 
 def feval(v, env):
